@@ -8,6 +8,7 @@ require (
 )
 
 require (
+	github.com/xiam/to v0.0.0-20191116183551-8328998fc0ed // indirect
 	golang.org/x/sys v0.0.0-20210124154548-22da62e12c0c // indirect
 	golang.org/x/text v0.3.3 // indirect
 )
